@@ -19,7 +19,7 @@ pub fn def() -> CheckDef {
         meta: CheckMeta {
             id: "C08",
             level: "exploration",
-            rule: "generated buckets (empty, single entry, single leaf, two- and three-level, mixed key/value + sub-bucket, and buckets of 300-800 small entries; committed and mid-transaction after generated inserts/deletes). Candidate keys = for every present key k: k, k||00, k minus its last byte, k with last byte +1 / -1, plus the empty key, 00 and ff ff ff. Every candidate is used as a seek key on a fresh cursor and on a cursor that has already yielded some entries or was run to its end (all candidates up to 64 entries, a seeded sample of 96 above); every pair of candidates x {included, excluded, unbounded}^2 is used as a range (all pairs for <= 12 entries, 1500 seeded pairs above) through (Bound,Bound) and the std range types, plain / to_buckets() / to_kv_pairs(); next() is called 1-3 more times after the end; re-used cursors: one cursor seeked to every stored key in ascending order (0-2 entries read in between), in descending order, and along seeded jumps over the candidates, never drained. Oracles: scan = model entries once ascending then None forever; seek flag = presence, entries after seek = contiguous suffix starting at the key or at its predecessor/successor; range = hand-written filter of the model. An evaluation is one query. Non-trivial = query on a bucket of height >= 2 whose bound key is absent, excluded, or whose bounds are reversed, or a re-used-cursor chain. Distinct = hash of (bucket build, modifications, query); capped at 300k per shard (lower bound when capped).",
+            rule: "generated buckets (empty, single entry, single leaf, two- and three-level, mixed key/value + sub-bucket, and buckets of 300-800 small entries; committed and mid-transaction after generated inserts/deletes). Candidate keys = for every present key k: k, k||00, k minus its last byte, k with last byte +1 / -1, plus the empty key, 00 and ff ff ff. Every candidate is used as a seek key on a fresh cursor and on a cursor that has already yielded some entries or was run to its end (all candidates up to 64 entries, a seeded sample of 96 above); every pair of candidates x {included, excluded, unbounded}^2 is used as a range (all pairs for <= 12 entries, 1500 seeded pairs above) through (Bound,Bound) and the std range types, plain / to_buckets() / to_kv_pairs(); next() is called 1-3 more times after the end; re-used cursors: one cursor seeked to every stored key in ascending order (0-2 entries read in between), in descending order, and along seeded jumps over the candidates, never drained; plus one fixed bucket of 67 000 entries put by a single transaction that is still open (one in-memory leaf wider than 65 536 entries), queried the same way. Oracles: scan = model entries once ascending then None forever; seek flag = presence, entries after seek = contiguous suffix starting at the key or at its predecessor/successor; range = hand-written filter of the model. An evaluation is one query. Non-trivial = query on a bucket of height >= 2 whose bound key is absent, excluded, or whose bounds are reversed, or a re-used-cursor chain. Distinct = hash of (bucket build, modifications, query); capped at 300k per shard (lower bound when capped).",
             assumptions: &["seek(absent) may position at the predecessor or the successor (the existing test cursor_seek pins the predecessor)"],
         },
         shard,
@@ -259,6 +259,23 @@ pub fn run_case(case: &C08Case, path: &std::path::Path, enumerate_budget: (usize
     out
 }
 
+/// 67 000 small entries put into the fresh bucket /s by one write transaction that stays open.
+pub fn huge_leaf_case() -> C08Case {
+    let mut mods = Vec::new();
+    for (base, total) in [(b'k', 65_500u32), (b'l', 1_500u32)] {
+        let mut at = 0u32;
+        while at < total {
+            mods.push(Op::PutRun { b: 0, base: vec![base], start: at as u16, step: 1, n: 250, klen: 0, vlen: 4 });
+            at += 250;
+        }
+    }
+    C08Case {
+        build: HistoryCase { cfg: Cfg::default(), fresh_handles: false, txs: vec![TxSpec { kind: TxKind::Commit, ops: vec![Op::GetOrCreate { b: 0, k: KeySel::Lit(b"s".to_vec()), kk: 2 }] }], dance: 0 },
+        mods,
+        query: None,
+    }
+}
+
 pub fn bucket_strategy() -> impl Strategy<Value = C08Case> {
     let w = OpWeights { put: 8, get: 0, delete: 8, put_run: 3, delete_run: 8, bucket_get: 0, bucket_create: 2, bucket_delete: 1, read_misc: 0, seek_range: 0 };
     let build = prop_oneof![
@@ -318,6 +335,22 @@ fn shard(ctx: &ShardCtx, known: &Known) -> ShardOut {
         c2.query = failing_query.borrow().clone();
         c2
     };
+    // one structured case outside the generator: more than 65 536 entries put into a fresh bucket
+    // in ONE uncommitted transaction (a single in-memory leaf far wider than any page can be),
+    // queried before commit
+    if ctx.shard == 0 {
+        let case = huge_leaf_case();
+        note_current(ctx, "c08", &case);
+        let o = run_case(&case, &path, (96, 200));
+        queries.set(queries.get() + o.queries);
+        let mut c2 = case.clone();
+        let failure = o.failure.map(|(f, q)| {
+            c2.query = q;
+            f
+        });
+        let classes = vec!["more than 65 536 entries in one in-memory leaf (one uncommitted transaction)".to_string(), "mid-transaction".to_string(), "sampled seeks (>64 entries)".to_string()];
+        record_case(ctx, &mut out, known, "c08", &c2, CaseVerdict { nontrivial: false, classes, failure });
+    }
     drive(ctx, &mut out, known, "c08", bucket_strategy(), n, "buckets", Some(&ps), |case| {
         note_current(ctx, "c08", case);
         let o = run_case(case, &path, budget);
